@@ -396,7 +396,7 @@ theorem step_good {st st' : State} (h : Good st) (hs : step st 0 = .ok st') : Go
         | (refine ⟨by simp [hn, walSync, (foldl_flush_flag _ _).2, (foldl_delete_flag _ _).2, restart_n, (ensure_append_flag _ _ _).1], ?_, ?_⟩
            · simp [hf, walSync, (foldl_flush_flag _ _).1, (foldl_delete_flag _ _).1, restart_flag, hg]
            · simp [setThread, Thread.finish, htodo]
-             try (rename_i hsome; revert hsome; cases lookup _ st.kgs <;> simp)))
+             try (first | (simp_all; done) | (rename_i hsome; revert hsome; cases lookup _ st.kgs <;> simp))))
 
 theorem good_init (ops : List Op) : Good (init [ops]) := by
   refine ⟨rfl, rfl, ?_⟩
